@@ -260,7 +260,9 @@ def report(ck, b, job, verdicts, label):
 # V: dense histories, measured margins
 # ------------------------------------------------------------------------------------------------------
 FP = 10 ** 9        # fixed-point scale of the logged margins (relative to the trace of the covariance)
-VTOL = 1e-6         # tolerance the trace spec applies to the measured margins (relative)
+VTOL = 1e-9         # tolerance the trace spec applies to the measured margins (relative; worst observed 3e-14)
+FMTOL = 1e-4        # lossless S-AdaGrad vs full-matrix AdaGrad on scale-disparate histories (worst observed 1e-7:
+                    # (delta I + C)^(-1/2) with cond up to 1e15)
 
 
 def v_jobs(ck, n):
@@ -301,7 +303,8 @@ def v_trace(job, r):
   """Measure the bracket / alpha law / last row on the recorded states; integers only."""
   alg, k, delta, lr = job["alg"], job["k"], job["delta"], job["lr"]
   f2 = {"S_ADA": 2, "RFD_SON": 1}.get(alg, 0)
-  cfg = {"alg": alg, "k": k, "fp": FP, "tolfp": int(VTOL * FP), "f2": f2, "dpos": bool(delta > 0)}
+  cfg = {"alg": alg, "k": k, "fp": FP, "tolfp": int(VTOL * FP), "f2": f2, "dpos": bool(delta > 0),
+         "fmtolfp": int(FMTOL * FP)}
   if r["error"]:
     return {"cfg": cfg, "events": [{"err": r["error"]["type"], "tc": 0, "lastzero": False, "finite": False,
                                     "lo": 0, "hi": 0, "aerr": 0, "rank": 0, "lossless": False, "escfp": 0,
@@ -475,7 +478,7 @@ def run(ck):
   ck.calib("bracket_lower_margin_violation", wl, VTOL)
   ck.calib("bracket_upper_margin_violation", wh, VTOL)
   ck.calib("alpha_law_residual", wa, VTOL)
-  ck.calib("lossless_sadagrad_vs_full_matrix_adagrad", wf, VTOL)
+  ck.calib("lossless_sadagrad_vs_full_matrix_adagrad", wf, FMTOL)
   ck.cov["dense_lossless_steps"] = nloss
   if nloss == 0 and not ck.violations:
     raise core.MachineryError("vacuous V leg: no lossless step in the dense histories")
@@ -486,14 +489,15 @@ def run(ck):
          "lossless": False, "escfp": 5 * FP // 10, "fmfp": 0}
     e.update(kw)
     return e
-  base = {"cfg": {"alg": "S_ADA", "k": 3, "fp": FP, "tolfp": int(VTOL * FP), "f2": 2, "dpos": True},
+  base = {"cfg": {"alg": "S_ADA", "k": 3, "fp": FP, "tolfp": int(VTOL * FP), "f2": 2, "dpos": True,
+                  "fmtolfp": int(FMTOL * FP)},
           "events": [ev(1, lossless=True, escfp=0), ev(2), ev(3, rank=2)]}
   def mod(i, **kw):
     t = copy.deepcopy(base)
     t["events"][i].update(kw)
     return t
-  synth = [base, mod(2, lastzero=False), mod(2, hi=-int(1e-3 * FP)), mod(1, lo=-int(1e-3 * FP)),
-           mod(1, aerr=int(1e-3 * FP)), mod(1, tc=3), mod(0, escfp=int(1e-2 * FP)), mod(2, rank=3)]
+  synth = [base, mod(2, lastzero=False), mod(2, hi=-int(1e-6 * FP)), mod(1, lo=-int(1e-6 * FP)),
+           mod(1, aerr=int(1e-6 * FP)), mod(1, tc=3), mod(0, escfp=int(1e-2 * FP)), mod(2, rank=3)]
   synth[0] = copy.deepcopy(base)
   wrongf = copy.deepcopy(base); wrongf["cfg"]["f2"] = 1
   synth.append(wrongf)
@@ -502,9 +506,9 @@ def run(ck):
   vs = sub.validate("OCO_Trace", "OCO_Trace", synth)
   ck.selftest("V: a well-formed synthetic trace is accepted", vs[0]["accepted"])
   ck.selftest("V: a non-zero last sketch row is rejected", vs[1]["verdict"] == "last_row_not_zero")
-  ck.selftest("V: covariance above sketch + escaped mass by 1e-3 is rejected", vs[2]["verdict"] == "bracket_upper")
-  ck.selftest("V: sketch above covariance by 1e-3 is rejected", vs[3]["verdict"] == "bracket_lower")
-  ck.selftest("V: alpha-law residual of 1e-3 is rejected", vs[4]["verdict"] == "alpha_law")
+  ck.selftest("V: covariance above sketch + escaped mass by 1e-6 is rejected", vs[2]["verdict"] == "bracket_upper")
+  ck.selftest("V: sketch above covariance by 1e-6 is rejected", vs[3]["verdict"] == "bracket_lower")
+  ck.selftest("V: alpha-law residual of 1e-6 is rejected", vs[4]["verdict"] == "alpha_law")
   ck.selftest("V: step counter advancing by two is rejected", vs[5]["verdict"] == "step_count")
   ck.selftest("V: escaped mass on a lossless history is rejected", vs[6]["verdict"] == "lossless_but_escaped")
   ck.selftest("V: sketch rank = sketch size is rejected", vs[7]["verdict"] == "rank_bound")
